@@ -29,20 +29,16 @@ Fixpoint chunk (fuel : nat) (nc : nat) (l : list Z) : list (list Z) :=
 Definition rows_of (nc : nat) (l : list Z) : list (list Z) := chunk (length l) nc l.
 
 (** PredictionSchemeWrapEncodingTransform::Init: bounds over all values of all components.
-    InitCorrectionBounds' result is ignored by the encoder: when it fails (range >= 2^31-1) the
-    bounds keep their constructor values 0 — the decoder rejects such a stream (defect D7). *)
+    Init ignores InitCorrectionBounds' result, but EncodeTransformData re-checks it and reports failure
+    (fix of defect D7): for a value range >= 2^31-1 the whole encode fails — [None]. *)
 Definition flat_min_max (vals : list Z) : Z * Z :=
   match vals with
   | [] => (0, 0)
   | v :: r => fold_left (fun mm x => (if x <? fst mm then x else fst mm,
                                        if x <? fst mm then snd mm else if x >? snd mm then x else snd mm)) r (v, v)
   end.
-Definition wrap_bounds_enc (vals : list Z) : wrap_bounds :=
-  let '(mn, mx) := flat_min_max vals in
-  match wrap_init mn mx with
-  | Some b => b
-  | None => mk_wrap_bounds mn mx 0 0 0
-  end.
+Definition wrap_bounds_enc (vals : list Z) : option wrap_bounds :=
+  let '(mn, mx) := flat_min_max vals in wrap_init mn mx.
 
 (** PredictionSchemeDeltaEncoder::ComputeCorrectionValues: D(i) - D(i-1) through the transform,
     the first entry against zeros.  (The C++ walks backwards; every correction only reads originals.) *)
@@ -82,15 +78,21 @@ Section SeqAttr.
     | [] => Some []
     | _ =>
       let vals := concat rows in
-      let '(hdr, src, tail) :=
+      let parts :=
         match io_pred o with
-        | PNone => ([byte_of_i8 PREDICTION_NONE_], vals, [])
+        | PNone => Some ([byte_of_i8 PREDICTION_NONE_], vals, [])
         | PDelta =>
-            let b := wrap_bounds_enc vals in
-            ([byte_of_i8 PREDICTION_DIFFERENCE_; byte_of_i8 PREDICTION_TRANSFORM_WRAP_],
-             concat (delta_corr b (repeat 0 nc) rows),
-             enc_le 4 (wb_min b mod 2 ^ 32) ++ enc_le 4 (wb_max b mod 2 ^ 32))
+            match wrap_bounds_enc vals with
+            | Some b =>
+                Some ([byte_of_i8 PREDICTION_DIFFERENCE_; byte_of_i8 PREDICTION_TRANSFORM_WRAP_],
+                      concat (delta_corr b (repeat 0 nc) rows),
+                      enc_le 4 (wb_min b mod 2 ^ 32) ++ enc_le 4 (wb_max b mod 2 ^ 32))
+            | None => None
+            end
         end in
+      match parts with
+      | None => None
+      | Some (hdr, src, tail) =>
       let syms := map (zigzag_enc 32) src in
       if io_builtin o then
         match enc_syms (io_method o) (io_level o) (Z.of_nat nc) syms with
@@ -100,6 +102,7 @@ Section SeqAttr.
       else
         let nb := raw_num_bytes syms in
         Some (hdr ++ [0; nb] ++ concat (map (enc_le (Z.to_nat nb)) syms) ++ tail)
+      end
     end.
 
   Fixpoint dec_raw_vals (n : nat) (nb : nat) (bs : bytes) : option (list Z * bytes) :=
